@@ -59,7 +59,8 @@ func parseRFC3339Timestamp(timeStr string, timezoneCache map[string]*time.Locati
 			}
 			tzName, tzOffset := z.Zone()
 			location = time.FixedZone(tzName, tzOffset)
-			timezoneCache[tzStr] = location
+			// the key must own its bytes: tzStr points into the record buffer, which is recycled for later records
+			timezoneCache[strings.Clone(tzStr)] = location
 		}
 	} else {
 		location = time.Local
